@@ -68,7 +68,7 @@ pub fn run(ctx: &Ctx, rng: Rng, rep: &mut Report) {
     let histories = ctx.n(ctx.quick_n.unwrap_or(300), ctx.thorough_n.unwrap_or(6000));
     let flavors = flavors_for(ctx, &[Flavor::Sync], &[Flavor::Sync]);
     let isz = item_size();
-    let watchdog = Duration::from_secs(if ctx.thorough() { 300 } else { 90 });
+    let watchdog = Duration::from_secs(if ctx.thorough() { 300 } else { 180 });
     if ctx.prop == "C05" {
         // the wiring of the real ticker, once per flavour and shard
         for f in [Flavor::Sync, Flavor::Async(Exec::TokioMt), Flavor::Async(Exec::ThreadPerTask)] {
